@@ -1,4 +1,5 @@
 import HavocVerif.Model.Tasks
+import HavocVerif.Gen.Dispatch
 /-
   C05 — Only callbacks to outstanding tasks have any effect.
 -/
@@ -71,6 +72,109 @@ theorem nonfinal_keeps (sendLogs : Bool) (s : TState) (a r c : Nat) :
     forwarding) BEACON_OUTPUT, with the ids of commands.go -/
 theorem exempt_ids : Gen.Consts.COMMAND_SOCKET = 2540 ∧ Gen.Consts.COMMAND_PIVOT = 2520 ∧
     Gen.Consts.BEACON_OUTPUT = 94 := by decide
+
+/-! ### The gate as written: statement-level model, refinement, and the regenerated source lines -/
+
+theorem knownLoop_eq_contains (ts : List Nat) (r : Nat) : knownLoop ts r = ts.contains r := by
+  induction ts with
+  | nil => rfl
+  | cons t ts ih =>
+    by_cases h : t = r
+    · simp [knownLoop, h]
+    · have h' : ¬ r = t := fun e => h e.symm
+      simp [knownLoop, h, h', ih]
+
+/-- `IsKnownRequestID`, statement by statement, decides exactly what the model's `isKnown` decides -/
+theorem isKnownGo_refines (sendLogs : Bool) (ts : List Nat) (r c : Nat) :
+    isKnownGo sendLogs ts r c = isKnown sendLogs ts r c := by
+  unfold isKnownGo isKnown exemptCmd
+  rw [knownLoop_eq_contains]
+  by_cases h1 : c = Gen.Consts.COMMAND_SOCKET
+  · simp [h1]
+  · by_cases h2 : c = Gen.Consts.COMMAND_PIVOT
+    · simp [h2]
+    · by_cases h3 : (sendLogs && c == Gen.Consts.BEACON_OUTPUT) = true
+      · simp [h1, h2, h3]
+      · simp [h1, h2, h3]
+
+/-- `RequestCompleted`, as the slice expression it is, removes the first occurrence and nothing else -/
+theorem completedGo_refines (ts : List Nat) (r : Nat) : completedGo ts r = requestCompleted ts r := by
+  unfold completedGo requestCompleted
+  induction ts with
+  | nil => rfl
+  | cons t ts ih =>
+    by_cases h : t = r
+    · simp [firstIdx, h]
+    · have hb : (t == r) = false := by simpa using h
+      simp only [firstIdx, hb, List.erase_cons]
+      cases hf : firstIdx ts r with
+      | none => simp [hf] at ih ⊢; exact ih
+      | some i => simp [hf] at ih ⊢; exact ih
+
+/-- ids the loop does not stop at are untouched, in order: completion never retires another task's id -/
+theorem completedGo_keeps_others (ts : List Nat) (r q : Nat) (h : q ≠ r) :
+    (completedGo ts r).count q = ts.count q := by
+  rw [completedGo_refines]; unfold requestCompleted
+  exact List.count_erase_of_ne h
+
+/-- `AddRequest` appends: the id becomes known, nothing else changes -/
+theorem addRequestGo_known (sendLogs : Bool) (ts : List Nat) (r c : Nat) :
+    isKnownGo sendLogs (addRequestGo ts r) r c = true := by
+  rw [isKnownGo_refines]; simp [isKnown, addRequestGo]
+
+/-- regenerated from agent.go on every run: the three functions are, statement for statement, the lines the
+    statement-level model above transcribes (`knownLoop`, `isKnownGo`, `firstIdx`/`completedGo`, `addRequestGo`) -/
+theorem gate_source_transcribed :
+    Gen.Dispatch.src_IsKnownRequestID =
+      ["IsKnownRequestID(teamserver TeamServer, RequestID uint32, CommandID uint32) bool",
+       "switch CommandID { case COMMAND_SOCKET: return true case COMMAND_PIVOT: return true }",
+       "if teamserver.SendLogs() && CommandID == BEACON_OUTPUT { return true }",
+       "a.JobMtx.Lock()",
+       "defer a.JobMtx.Unlock()",
+       "for i := range a.Tasks { if a.Tasks[i].RequestID == RequestID { return true } }",
+       "return false"] ∧
+    Gen.Dispatch.src_AddRequest =
+      ["AddRequest(job Job) []Job",
+       "a.JobMtx.Lock()",
+       "defer a.JobMtx.Unlock()",
+       "a.Tasks = append(a.Tasks, job)",
+       "return a.Tasks"] ∧
+    Gen.Dispatch.src_RequestCompleted =
+      ["RequestCompleted(RequestID uint32)",
+       "a.JobMtx.Lock()",
+       "defer a.JobMtx.Unlock()",
+       "for i := range a.Tasks { if a.Tasks[i].RequestID == RequestID { a.Tasks = append(a.Tasks[:i], a.Tasks[i+1:]...) break } }"] :=
+  ⟨rfl, rfl, rfl⟩
+
+/-- regenerated from demons.go: in `TaskDispatch` nothing but the computation of the agent's numeric id (for the log
+    line) is evaluated before the gate, the gate tests this callback's own id and command, its refusing branch ends
+    in a bare `return`, and the command switch comes only after it -/
+theorem gate_first :
+    Gen.Dispatch.dispatchSig = "(RequestID uint32, CommandID uint32, Parser *parser.Parser, teamserver TeamServer)" ∧
+    Gen.Dispatch.preSwitch = ["var NameID, _ = strconv.ParseInt(a.NameID, 16, 64)", "AgentID := int(NameID)", "gate"] ∧
+    Gen.Dispatch.preGateCalls = ["ParseInt", "int"] ∧
+    Gen.Dispatch.gateCond = "a.IsKnownRequestID(teamserver, RequestID, CommandID) == false" ∧
+    Gen.Dispatch.gateBodyEndsInReturn = true ∧
+    Gen.Dispatch.switchTag = "CommandID" :=
+  ⟨rfl, rfl, rfl, rfl, rfl, rfl⟩
+
+/-- regenerated: every completion in pkg/agent is `a.RequestCompleted(RequestID)` inside `TaskDispatch`, where neither
+    `a` nor `RequestID` is ever re-bound: a callback can only retire the id it carries, on the agent it came from;
+    and no code outside the three gate functions writes an agent's `Tasks` -/
+theorem completion_retires_own_id :
+    Gen.Dispatch.completedCalls = [("TaskDispatch", "a|RequestID")] ∧
+    Gen.Dispatch.rebound = [] ∧ Gen.Dispatch.tasksWrites = [] :=
+  ⟨rfl, rfl, rfl⟩
+
+/-- regenerated: the command kinds whose handlers never retire an id are the pure output kinds -/
+theorem silent_cases :
+    (Gen.Dispatch.caseCompletes.filter (·.2 == 0)).map (·.1) =
+      ["COMMAND_GET_JOB", "COMMAND_OUTPUT", "BEACON_OUTPUT", "COMMAND_PACKAGE_DROPPED", "default"] := by decide
+
+example : completedGo [4, 7, 9, 7] 7 = [4, 9, 7] ∧ completedGo [4, 9] 7 = [4, 9] := by decide
+example : isKnownGo false [4, 7] 7 11 = true ∧ isKnownGo false [4, 7] 8 11 = false ∧
+    isKnownGo false [] 8 Gen.Consts.COMMAND_SOCKET = true ∧ isKnownGo false [] 8 Gen.Consts.BEACON_OUTPUT = false ∧
+    isKnownGo true [] 8 Gen.Consts.BEACON_OUTPUT = true := by decide
 
 /-! non-vacuity -/
 example : (trun false [.issue 1 7, .callback 2 7 11 true, .callback 1 7 11 true, .callback 1 7 11 true]).effects
